@@ -563,11 +563,20 @@ CLAIMS = {
          "examples, each replayed on the real encoders and the real pipeline. Tie: exhaustive model-vs-real diff of the seven public encoders "
          "(all identifiers up to length 4 over {a _ 0 T # / : é}, types exhaustively to depth 2 and sampled to depth 4) plus whole-program name "
          "predictions; oracle on the real goast::File: one declaration per name and scope, legal identifiers, every reference resolves to the "
-         "entity meant, resolution shape invariant under renaming a user identifier, over templates x an adversarial dictionary.",
-    design_ref="§5 C19, 'C19 — as built'",
+         "entity meant, resolution shape invariant under renaming a user identifier, over templates x an adversarial dictionary. "
+         "INSTANCE NAMES (Props/C19Compact.lean, harness/src/c19univ.rs): tyCompact_injective / tyCompact_injective_of_kinds / "
+         "monoTypeName_injective_one_param - ty_compact, the spelling instance names and spec names are built from (instance_names_use_tyCompact, "
+         "re-read from mono.rs every run), is injective on EVERY monomorphic type (primitives, structs, enums, dyn, tuples, generic applications, "
+         "arrays, Vec, Ref, function types, any nesting) up to struct-vs-enum kind, for nominal names that are identifiers other than a "
+         "primitive's spelling / Vec / Ref / dyn-prefixed - each side condition shown necessary by a collision. Validated, not proved: an "
+         "enumerated universe of types (every constructor one level over 11 atoms, two levels over 2 atoms, user structs named like the REAL "
+         "encoders' spellings of those types) instantiates one generic enum, struct and function per type through the real pipeline; the real "
+         "instance tables must hold as many names as types (Mono and Go level), every shared name becomes a two-type program judged by the pair "
+         "hunt's oracles, and the model predicts every real name.",
+    design_ref="§5 C19, 'C19 — as built', 'C19 — instance-name collision hunt', 'Seeded C19-instance-args-spelled-by-encode-ty (round 11)'",
     note="PARTIAL: uniqueness is proved only on the stated fragments; 26 collision classes reachable from source programs are known findings "
          "(user names equal to runtime helpers / main0 / fmt / temporaries / predeclared len, any; `_` and `#` merged by go_ident; tuple-nesting "
-         "and lower-casing in encode_ty/ref_struct_name; instance names vs user names). Behavioural rename-invariance is checked syntactically "
+         "and lower-casing in encode_ty/ref_struct_name; instance names vs user names; `dyn Tr` spelled `dynTr` by ty_compact, like a user struct of that name). Behavioural rename-invariance is checked syntactically "
          "(alpha-shape of the Go file), not under a Go semantics. Trusted: Lean kernel, extract.py, goscope.rs scope rules, generator templates.",
     technique="Lean 4 proof (all strings / all types) + translator-regenerated tables + exhaustive encoder diff + scope oracle on real output"),
  "C01": dict(
